@@ -6,12 +6,14 @@
 # Prints CONFIRMED or REJECTED with the reason and writes <seed-dir>/confirm.log.
 set -u
 export GOFLAGS=-mod=mod GOPROXY=off GOSUMDB=off GOTOOLCHAIN=local; unset GOWORK
-seed=$(readlink -f "$1")
+seed=$(readlink -f "$1"); verifdir=$(cd "$(dirname "$0")/.." && pwd)
 log="$seed/confirm.log"; : > "$log"
 wt=$(mktemp -d /tmp/confirm-XXXXXX); rmdir "$wt"
 git -C /repo worktree add -q --detach "$wt" HEAD || exit 2
 cleanup() { git -C /repo worktree remove --force "$wt" 2>/dev/null; rm -rf "$wt"; }
 trap cleanup EXIT
+base=$(jq -r '.base // empty' "$seed/meta.json")
+if [ -n "$base" ]; then (cd "$wt" && git apply "$verifdir/$base/patch.diff") || { echo "REJECTED: base $base does not apply"; exit 1; }; fi
 pkgdir=$(jq -r .demo_package_dir "$seed/meta.json" | sed "s#^/tmp/seed-C[0-9]*/##; s#^/tmp/seed-C[0-9]*\$#.#; s#^\./##")
 [ -z "$pkgdir" -o "$pkgdir" = null ] && pkgdir=.
 demo="$wt/$pkgdir/zz_seed_demo_test.go"
